@@ -573,13 +573,34 @@ def register_c12(op):
             back = objectio.read_pil_line("Y = " + c.kernel_string)
             got = [[str(x) for x in back.sequence], list(back.structure)]
             [line] = parse_pil_string("Y = " + c.kernel_string + "\n")
+            shown = repr(line)
             r = objectio.resolve_kernel_loops(line[2])
             with open(path, "w") as f:
                 f.write("Y = " + c.kernel_string + "\n")
             viafile = objectio.read_pil(path, is_file=True)["complexes"]
             fobj = viafile.get("Y")
             fgot = [[str(x) for x in fobj.sequence], list(fobj.structure)] if fobj is not None else None
-            out.append([back is c, [list(r[0]), list(r[1])] == want, got == want, fobj is c and fgot == want])
+            # the parsed line stays the caller's: the SAME parser output (already interpreted once by resolve_kernel_loops above)
+            # is read again by the reader, then once more in a second reader configuration (a user subclass of ComplexS, as
+            # a tool does that loads one parsed document into two object layers); every interpretation is the complex that
+            # was written and the parse tree is left as the parser produced it
+            try:
+                again = objectio.read_pil_line(line)
+                same_again = again is c
+            except (SingletonError, objectio.PilFormatError):
+                same_again = False
+            again = None
+            objectio.set_io_objects(C=_C)
+            try:
+                layer = objectio.read_pil_line(line)
+                lgot = [[str(x) for x in layer.sequence], list(layer.structure)]
+            except (SingletonError, objectio.PilFormatError):
+                lgot = None
+            layer = None
+            clear_singletons(_C)
+            objectio.set_io_objects()
+            reread = same_again and lgot == want and repr(line) == shown
+            out.append([back is c, [list(r[0]), list(r[1])] == want, got == want, fobj is c and fgot == want, reread])
             del viafile, fobj
             if t == 0:
                 # the name Y denotes c: another complex over the same domains (two different unpaired tokens swapped) read under
